@@ -828,6 +828,12 @@ func (o *Array) UnmarshalBinary(data []byte) error {
 	if length < 0 || length > int64(rd.Len()) {
 		return errors.New("invalid ugo.Array length")
 	}
+	// length is only a capacity hint, elements are appended as they are decoded.
+	// Nested arrays can each claim all the bytes of the levels below them, a
+	// large hint is not trusted.
+	if length > 64 {
+		length = 64
+	}
 	arr := make([]ugo.Object, 0, int(length))
 	for rd.Len() > 0 {
 		o, err := DecodeObject(rd)
